@@ -77,8 +77,8 @@ func (esp *EntityStreamParser) ParseTransaction(reader io.Reader) (*Transaction,
 		return nil, errors.New("parsing error: Unable to decode context " + err.Error())
 	}
 
-	for k, v := range context["namespaces"].(map[string]interface{}) {
-		esp.localNamespaces[k] = v.(string)
+	if err := esp.readNamespaces(context); err != nil {
+		return nil, err
 	}
 
 	for {
@@ -132,6 +132,26 @@ func (esp *EntityStreamParser) ParseTransaction(reader io.Reader) (*Transaction,
 	return txn, nil
 }
 
+// readNamespaces takes the namespace declarations out of a context object; anything but a map
+// of strings is a malformed payload, not a reason to panic
+func (esp *EntityStreamParser) readNamespaces(context map[string]interface{}) error {
+	if context["namespaces"] == nil {
+		return nil
+	}
+	namespaces, ok := context["namespaces"].(map[string]interface{})
+	if !ok {
+		return errors.New("parsing error: namespaces in context must be an object")
+	}
+	for k, v := range namespaces {
+		expansion, ok := v.(string)
+		if !ok {
+			return errors.New("parsing error: namespace expansion of prefix " + k + " must be a string")
+		}
+		esp.localNamespaces[k] = expansion
+	}
+	return nil
+}
+
 func (esp *EntityStreamParser) ParseStream(reader io.Reader, emitEntity func(*Entity) error) error {
 	decoder := json.NewDecoder(reader)
 
@@ -154,8 +174,8 @@ func (esp *EntityStreamParser) ParseStream(reader io.Reader, emitEntity func(*En
 	}
 
 	if context["id"] == "@context" {
-		for k, v := range context["namespaces"].(map[string]interface{}) {
-			esp.localNamespaces[k] = v.(string)
+		if err := esp.readNamespaces(context); err != nil {
+			return err
 		}
 	} else {
 		return errors.New("first entity in array must be a context")
@@ -222,11 +242,15 @@ func (esp *EntityStreamParser) parseEntity(decoder *json.Decoder) (*Entity, erro
 					return nil, errors.New("unable to read token of id value " + err2.Error())
 				}
 
-				if val.(string) == "@continuation" {
+				idVal, isString := val.(string)
+				if !isString {
+					return nil, errors.New("id must be a string")
+				}
+				if idVal == "@continuation" {
 					e.ID = "@continuation"
 					isContinuation = true
 				} else {
-					nsID, err2 := esp.store.GetNamespacedIdentifier(val.(string), esp.localNamespaces)
+					nsID, err2 := esp.store.GetNamespacedIdentifier(idVal, esp.localNamespaces)
 					if err2 != nil {
 						return nil, err2
 					}
@@ -237,14 +261,22 @@ func (esp *EntityStreamParser) parseEntity(decoder *json.Decoder) (*Entity, erro
 				if err2 != nil {
 					return nil, errors.New("unable to read token of recorded value " + err2.Error())
 				}
-				e.Recorded = uint64(val.(float64))
+				recorded, isNumber := val.(float64)
+				if !isNumber {
+					return nil, errors.New("recorded must be a number")
+				}
+				e.Recorded = uint64(recorded)
 
 			case "deleted":
 				val, err2 := decoder.Token()
 				if err2 != nil {
 					return nil, errors.New("unable to read token of deleted value " + err2.Error())
 				}
-				e.IsDeleted = val.(bool)
+				deleted, isBool := val.(bool)
+				if !isBool {
+					return nil, errors.New("deleted must be true or false")
+				}
+				e.IsDeleted = deleted
 
 			case "props":
 				e.Properties, err = esp.parseProperties(decoder)
@@ -283,9 +315,12 @@ func (esp *EntityStreamParser) parseEntity(decoder *json.Decoder) (*Entity, erro
 func (esp *EntityStreamParser) parseReferences(decoder *json.Decoder) (map[string]interface{}, error) {
 	refs := make(map[string]interface{})
 
-	_, err := decoder.Token()
+	start, err := decoder.Token()
 	if err != nil {
 		return nil, errors.New("unable to read token of at start of references " + err.Error())
+	}
+	if delim, ok := start.(json.Delim); !ok || delim != '{' {
+		return nil, errors.New("refs must be an object")
 	}
 
 	for {
@@ -323,9 +358,12 @@ func (esp *EntityStreamParser) parseReferences(decoder *json.Decoder) (map[strin
 func (esp *EntityStreamParser) parseProperties(decoder *json.Decoder) (map[string]interface{}, error) {
 	props := make(map[string]interface{})
 
-	_, err := decoder.Token()
+	start, err := decoder.Token()
 	if err != nil {
 		return nil, errors.New("unable to read token of at start of properties " + err.Error())
+	}
+	if delim, ok := start.(json.Delim); !ok || delim != '{' {
+		return nil, errors.New("props must be an object")
 	}
 
 	for {
